@@ -112,6 +112,66 @@ func (v *VT04) Flush() bool {
 	return true
 }
 
+// MergeAll is the merge loop body with the merge policy's choice replaced by "every file part of the current
+// snapshot": the real mergePartsThenSendIntroduction (core parts and every sidx), introduced by the real
+// introducer loop (introduceMerged: commit, persistSnapshot, release of the replaced parts).
+func (v *VT04) MergeAll() bool {
+	cur := v.tst.currentSnapshot()
+	if cur == nil {
+		return false
+	}
+	defer cur.decRef()
+	var dst []*partWrapper
+	toBeMerged := make(map[uint64]struct{})
+	for _, pw := range cur.parts {
+		if pw.mp != nil {
+			continue
+		}
+		dst = append(dst, pw)
+		toBeMerged[pw.ID()] = struct{}{}
+	}
+	if len(dst) < 2 {
+		return false
+	}
+	if _, err := v.tst.mergePartsThenSendIntroduction(snapshotCreatorMerger, dst, toBeMerged, v.mergeCh,
+		v.tst.loopCloser.CloseNotify(), mergeTypeFile, mergeLaneFast, nil); err != nil {
+		panic(err)
+	}
+	return true
+}
+
+// WaitGone waits until no core part directory and no index part directory other than those of the current
+// snapshot is left (the replaced parts are removed asynchronously).
+func (v *VT04) WaitGone() bool {
+	for i := 0; i < 50000; i++ {
+		keep := make(map[string]bool)
+		cur := v.tst.currentSnapshot()
+		if cur != nil {
+			for _, pw := range cur.parts {
+				keep[partName(pw.ID())] = true
+			}
+			cur.decRef()
+		}
+		pending := false
+		for _, d := range []string{v.Root, filepath.Join(v.Root, sidxDirName, VT04SidxName)} {
+			ee, err := os.ReadDir(d)
+			if err != nil {
+				continue
+			}
+			for _, e := range ee {
+				if e.IsDir() && e.Name() != sidxDirName && !keep[e.Name()] {
+					pending = true
+				}
+			}
+		}
+		if !pending {
+			return true
+		}
+		time.Sleep(200 * time.Microsecond)
+	}
+	return false
+}
+
 // Dump: "epoch=<hex> parts=<id>:<m|f>:<batch>;... sidx=<PartCount|-> sidxdirs=<id>,..." — the batch of a part is the
 // minimum timestamp of its metadata (one batch per part in this stream).
 func (v *VT04) Dump() string {
@@ -129,8 +189,10 @@ func (v *VT04) Dump() string {
 			} else {
 				pm = &pw.p.partMetadata
 			}
-			bs := fmt.Sprintf("%d", pm.MinTimestamp)
-			if pm.MinTimestamp != pm.MaxTimestamp || pm.TotalCount != 2 {
+			// the batches of a part are the timestamps MinTimestamp..MaxTimestamp (a merged part covers a range;
+			// histories merge neighbouring batches only), two traces each
+			bs := fmt.Sprintf("%d-%d", pm.MinTimestamp, pm.MaxTimestamp)
+			if pm.TotalCount != uint64(2*(pm.MaxTimestamp-pm.MinTimestamp+1)) {
 				bs += "!"
 			}
 			ps = append(ps, fmt.Sprintf("%x:%s:%s", pw.ID(), kind, bs))
